@@ -292,6 +292,26 @@ Definition add_filtered (f : forest) (nx : nat) : forest * nat :=
 (* Tree.copy(predicate=) / Tree.filtered: new ids start at 1 *)
 Definition filtered (f : forest) : forest := fst (add_filtered f 1).
 
+End WithPredicate.
+
+(* the public entry points with an optional predicate:
+   Tree.filter / Tree.filtered / Node.filter / Node.filtered raise ValueError
+   ("Predicate is required (use copy() instead)") without one;
+   Tree.copy / Node.copy fall back to the plain copy of _add_from *)
+Inductive outcome (X : Type) := Ok (x : X) | EValue.
+Arguments Ok {X} x.
+Arguments EValue {X}.
+
+Definition api_filter (p : option (nat -> verdict)) (f : forest) : outcome forest :=
+  match p with None => EValue | Some v => Ok (filter_inplace v f) end.
+Definition api_filtered (p : option (nat -> verdict)) (f : forest) (nx : nat) : outcome forest :=
+  match p with None => EValue | Some v => Ok (fst (add_filtered v f nx)) end.
+Definition api_copy (p : option (nat -> verdict)) (f : forest) (nx : nat) : forest :=
+  match p with None => fst (copy_f f nx) | Some v => fst (add_filtered v f nx) end.
+
+Section WithPredicate2.
+Variable v : nat -> verdict.
+
 (* ------------------------------------------------------------------ *)
 (* (c') the calls of the predicate made by the two scans, in order.  Both
    loops have the same skeleton: no call once stopped, one call per child,
@@ -320,9 +340,9 @@ Fixpoint scan_calls_f (after : bool -> rt -> bool) (s : bool) (l : list rt) {str
   end.
 
 Definition ip_calls (f : forest) : list nat :=
-  scan_calls_f (fun s x => snd (ip_node s x)) false f.
+  scan_calls_f (fun s x => snd (ip_node v s x)) false f.
 Definition af_calls (f : forest) : list nat :=
-  scan_calls_f (fun s x => snd (af_node x ([], 0, s))) false f.
+  scan_calls_f (fun s x => snd (af_node v x ([], 0, s))) false f.
 
 (* ------------------------------------------------------------------ *)
 (* (d) set characterisation *)
@@ -381,7 +401,7 @@ Fixpoint dbl_t (t : rt) : rt :=
   end.
 Definition dbl (f : forest) : forest := map dbl_t f.
 
-End WithPredicate.
+End WithPredicate2.
 
 (* equality modulo node identity: same data objects, data ids, shape, order *)
 Fixpoint erase (t : rt) : rt := match t with T _ i ch => T 0 i (map erase ch) end.
